@@ -132,4 +132,63 @@ theorem interpPinned_breaks :
     ((interp intArith intRange d "t" [0, 1, 2, 3]).toOption.map (fun r => (r.dims, r.values.shape, r.values.data)))
       = some (["x", "t"], [2, 4], [0, 1, 2, 3, 10, 11, 12, 13]) := by decide +kernel
 
+section perFunction
+variable (A : Arith κ α)
+
+/-- `interp` is trace-wise: at any labels of the other dimensions the result is the 1-D interpolation of that trace alone -/
+theorem interp_trace_local (arange : Nat → List κ) {d r : Data κ α} {dim : String} (newc : List κ)
+    (hd : d.Consistent) (hf : d.unf = none) (hdim : dim ∈ d.dims) (hfi : "fold_index" ∉ d.dims)
+    (hr : d.interp A arange dim newc = .ok r) :
+    r.dims = d.dims ∧ r.coord dim = newc ∧ (∀ nm ∈ d.dims, nm ≠ dim → r.coord nm = d.coord nm) ∧
+    ∀ ℓ : String → Nat, (∀ nm ∈ d.dims, nm ≠ dim → ℓ nm < d.ext nm) → ℓ dim < newc.length →
+      r.getN ℓ = (newc.map (interp1 A (d.coord dim) (d.trace dim ℓ))).getD (ℓ dim) default := by
+  simp only [Data.interp, bind, Except.bind] at hr
+  split at hr
+  · cases hr
+  · rename_i q hq
+    simp only [Except.ok.injEq] at hr
+    subst hr
+    obtain ⟨h1, _, h3, h4, h5⟩ := bracket_trace_local arange (fun c => newc.map (interp1 A (d.coord dim) c)) newc.length
+      (some newc) hd hf hdim hfi (by intro c hc; cases hc; rfl) (by intro h; cases h) hq
+    exact ⟨h1, h4, h3, h5⟩
+
+/-- `normalize(dim=…)` is trace-wise: every trace is divided by its own largest magnitude -/
+theorem normalize_trace_local (arange : Nat → List κ) {d r : Data κ α} {dim : String}
+    (hd : d.Consistent) (hf : d.unf = none) (hdim : dim ∈ d.dims) (hfi : "fold_index" ∉ d.dims)
+    (hr : d.normalize A arange (some dim) = .ok r) :
+    r.dims = d.dims ∧ (∀ nm ∈ d.dims, r.coord nm = d.coord nm) ∧
+    ∀ ℓ : String → Nat, (∀ nm ∈ d.dims, ℓ nm < d.ext nm) →
+      r.getN ℓ = A.div (d.getN ℓ) (maxAbs A (d.trace dim ℓ)) := by
+  simp only [Data.normalize, hdim, not_true_eq_false, if_false, bind, Except.bind] at hr
+  split at hr
+  · cases hr
+  · rename_i q hq
+    simp only [Except.ok.injEq] at hr
+    subst hr
+    obtain ⟨h1, _, h3, h4, h5⟩ := bracket_trace_local arange (fun c => c.map (fun x => A.div x (maxAbs A c))) (d.ext dim)
+      none hd hf hdim hfi (by intro c hc; cases hc) (by intro _; rfl) hq
+    refine ⟨h1, ?_, ?_⟩
+    · intro nm hnm
+      by_cases hne : nm = dim
+      · subst hne; exact (by simpa using h4 : q.coord nm = d.coord nm)
+      · exact h3 nm hnm hne
+    · intro ℓ hℓ
+      have := h5 ℓ (fun nm hnm _ => hℓ nm hnm) (hℓ dim hdim)
+      show q.getN ℓ = _
+      rw [this]
+      have hlen : ℓ dim < (d.trace dim ℓ).length := by simp [trace]; exact hℓ dim hdim
+      rw [List.getD_eq_getElem?_getD, List.getElem?_map, List.getElem?_eq_getElem hlen]
+      simp only [Option.map_some, Option.getD_some]
+      congr 1
+      simp only [trace, List.getElem_map, List.getElem_range]
+      unfold getN
+      congr 1
+      apply List.map_congr_left
+      intro x _
+      by_cases hx : x = dim
+      · simp [hx]
+      · simp [hx]
+
+end perFunction
+
 end Dnp.C08
